@@ -2,10 +2,10 @@ ID = "C16"
 LEVEL = "model_checking"
 MIRSYM = "C16"
 BOUNDS = ("params arrays of 0..2 (quick) / 0..3 (thorough) elements and absent params; every interior whitespace run and element length symbolic up to 2^20 bytes; every sequence of "
-          "1..3 / 1..4 reads over {next, optional_next}; every accept/reject choice of each read for each element")
+          "1..3 / 1..4 reads over {next, optional_next}; every accept/reject choice of each read for each element; every element null or not, reads typed Option<T> or T")
 EXPLANATION = ("The MIR of Params::sequence and ParamsSequence::{next_inner,next,optional_next} is executed symbolically over an abstract params text (layout of a JSON array with "
                "symbolic whitespace runs and element lengths; &str values are suffixes of it). serde_json's stream deserializer is replaced by its contract on that layout. z3 decides, "
-               "for every read of every read sequence, that the outcome is the one a plain parse of the array prescribes.")
+               "for every read of every read sequence, that the outcome is the one a plain parse of the array prescribes. Null elements are consumed as 'absent' by optional reads and as values by reads whose type accepts null.")
 TRUSTED = ["rustc MIR dump", "z3 / cvc5", "serde_json's StreamDeserializer contract as modelled (value parsing itself)", "str slicing / trim_start semantics as modelled"]
 OUTSIDE = ["byte-level JSON scanning and typed value decoding (serde_json)", "Params::parse / Params::one beyond their being one serde_json::from_str call (native battery only)",
            "params texts that are not JSON arrays (objects / scalars take the first-byte error arm: covered as 'neither [ nor ,' only through the layout's element bytes)"]
